@@ -84,9 +84,10 @@ def all_specs(start, dt=DT):
     """list of (family, spec, expected index list or exception name)"""
     grid = np.arange(N + 1)
     out = []
-    for i in (-1, 0, 1, 2, 3, 4):
+    for i in range(-1, N + 2):
         out.append(("int", i, [i] if 0 <= i <= N else "IndexError"))
-    for a, b, c in itertools.product([None, 0, 1, 2, 3, 4, -1], [None, 0, 1, 2, 3, 4, -1], [None, 1, 2, -1]):
+    ends = [None] + list(range(N + 2)) + [-1]
+    for a, b, c in itertools.product(ends, ends, [None, 1, 2, -1]):
         out.append(("slice", slice(a, b, c), list(grid[slice(a, b, c)])))
     for r in range(1, N + 2):
         for sub in itertools.permutations(range(N + 1), r):
@@ -372,7 +373,7 @@ def pttempo_case(args):
 
 def build_cases(tier):
     cases = []
-    full = ("list", [0, 1, 2, 3], [0, 1, 2, 3])
+    full = ("list", list(range(N + 1)), list(range(N + 1)))
     for start in (0.0, 1.7):
         specs = all_specs(start)
         # (i) every specification in position a and in position b, against the full grid in the other position
@@ -384,7 +385,13 @@ def build_cases(tier):
         lists = [s for s in specs if s[0] == "list"]
         ivs = [s for s in specs if s[0] == "interval"]
         ints = [s for s in specs if s[0] in ("int", "float")]
-        if start == 0.0 or tier == "thorough":
+        if tier == "thorough" and N > 3:
+            # N = 4: all pairs of ordered subsets with at most three entries (start 0), full-length permutations vs themselves
+            small = [x for x in lists if len(x[2]) <= 3] if start == 0.0 else [x for x in lists if len(x[2]) <= 2]
+            for a, b in itertools.product(small, small):
+                for order in ("ordered", "anti"):
+                    cases.append((a[0], a[1], a[2], b[0], b[1], b[2], order, start))
+        elif start == 0.0 or tier == "thorough":
             for a, b in itertools.product(lists, lists):
                 for order in ("ordered", "anti"):
                     cases.append((a[0], a[1], a[2], b[0], b[1], b[2], order, start))
@@ -413,7 +420,12 @@ def nt_cases(tier):
 
 
 def run(tier, seed):
+    global N
     rep = Report(LEVEL)
+    # thorough tier: a grid of N = 4 steps (5 points); set before any cache is built and before the workers are forked
+    N = 4 if tier == "thorough" else 3
+    _ENV.clear()
+    _TABLES.clear()
     tables()
     env()
     cases = build_cases(tier)
@@ -468,7 +480,9 @@ def run(tier, seed):
         "traces_validated_against_impl": total,
         "exhaustive": True,
         "trivial_cases": trivial,
-        "spec_lattice": {"ints": 6, "slices": 196, "lists": 64, "floats": 14, "intervals": 16, "start_times": [0.0, 1.7]},
+        "grid_steps": N,
+        "spec_lattice": {"ints": N + 3, "slices": (N + 4) ** 2 * 4, "lists": sum(1 for c in all_specs(0.0) if c[0] == "list"),
+                         "floats": 3 * (N + 1) + 2, "intervals": (N + 1) ** 2, "start_times": [0.0, 1.7]},
         "dt_family": dres,
         "bath_dynamics": bres["summary"],
         "rule": "state = (resolved index tuple of times_a, of times_b, time order) reached from a specification; every "
